@@ -8,7 +8,7 @@ import sys
 import threading
 
 from harness import impl
-from harness.common import PY, REPO, VERIF, rng, short
+from harness.common import quick_scale, PY, REPO, VERIF, rng, short
 from harness.gen import corpus, mutate, pyprog, xonshgen
 
 
@@ -79,7 +79,7 @@ def run(rep, tier, pool, variants=("shipped",)):
     items = pool_inputs(r)
     ref = fresh_results(items)
     refmap = {it: strip(o) for it, o in zip(items, ref)}
-    nperm = 3 if tier == "quick" else 40
+    nperm = 3 * quick_scale() if tier == "quick" else 40
 
     def check(hist_id, pos, item, got, prev):
         rep.case((hist_id, pos), True, sample={"history": hist_id, "pos": pos, "input": item[0][:50]} if len(rep.samples) < 5 else None)
